@@ -332,7 +332,10 @@ def _length_guard_classification(repo, chk, gf):
         expr.type = _S()
         expr.type.el_type = dt
         try:
-            guarded = bool(it.eval(cond, Env({}, {'self': s, 'expr': expr})))
+            from ..consteval import _ModuleView
+            astns = it.load('hidc/ast/__init__.py')
+            g = {'DataType': DT, 'ArrayType': astns['ArrayType'], 'ast': _ModuleView(astns)}
+            guarded = bool(it.eval(cond, Env(g, {'self': s, 'expr': expr})))
         except Exception as e:
             raise AnalysisError(f'cannot evaluate length-guard condition `{src(cond)}`: {e}')
         # size function: array_size(data_type, length) read structurally: BOOL -> (n+7)>>3, else n*frame_size
